@@ -1,6 +1,8 @@
 import CssVerif.Lemmas.Profiles
 import CssVerif.Lemmas.MacroRank
 import CssVerif.Lemmas.MacroHist
+import CssVerif.Lemmas.MacroComplete
+import CssVerif.Lemmas.MacroFuel
 import CssVerif.Lemmas.ProfilesSpec
 import CssVerif.Gen.C14Profiles
 /-!
@@ -303,6 +305,11 @@ theorem acyclic_check_sound (m : Dict Str) (h : acyclicB m = true) :
     Acyclic m ∧ ∀ f, m.length + 1 ≤ f → ∀ v, expandValue m f v ≠ .error .diverges :=
   ⟨acyclicB_acyclic m h, fun f hf v => acyclicB_terminates m h f hf v⟩
 
+/-- and complete: a macro set with a rank function passes the check (were the search for a rank to run out of its
+fuel `|m| + 1`, there would be `|m| + 1` distinct defined macros on a chain) — `acyclicB` decides `Acyclic` -/
+theorem acyclic_check_complete (m : Dict Str) : acyclicB m = true ↔ Acyclic m :=
+  acyclicB_iff m
+
 /-- what makes `Profiles()` go through, for ANY tables: distinct names; the macro set (base macros updated with the
 macros of all tables) passes the cycle check and is closed; no property uses an undefined macro; the fuel exceeds
 the number of macros -/
@@ -409,6 +416,40 @@ theorem builtin_plain_histories_never_diverge (ops : List Op) (hops : ∀ op ∈
     (pre : List Op) (op : Op) (post : List Op) (h : ops = pre ++ op :: post) :
     (step Gen.C14.cfg (run Gen.C14.cfg (init Gen.C14.cfg Gen.C14.builtins).1 pre) op).2 ≠ some .diverges :=
   builtin_histories_never_diverge ops (fun o ho => rankedOp_of_noMacros _ o (hops o ho)) pre op post h
+
+/-- **the fuel is no part of what a history computes**: two configurations with the same base macros and fuels
+above the ranks build the same `Profiles()` and, after any history whose macros respect the rank function, hold
+the same registry (every field: macro cache, names, raw and compiled tables, defaults, known names) — hence give the
+same outcome for every operation and the same answers. The bound the model puts on Python's unbounded loop cannot be
+observed. -/
+theorem fuel_no_part_of_histories (rk : Str → Nat) (c₁ c₂ : Cfg) (hb : c₁.base = c₂.base)
+    (h₁ : Bounded rk c₁.fuel) (h₂ : Bounded rk c₂.fuel) (hbase : RankedAll rk c₁.base)
+    (builtins : List ProfileDef) (hl : ∀ d ∈ builtins, optRanked rk d.macros) (ops : List Op)
+    (hops : ∀ op ∈ ops, RankedOp rk op) :
+    init c₁ builtins = init c₂ builtins ∧
+    run c₁ (init c₁ builtins).1 ops = run c₂ (init c₂ builtins).1 ops ∧
+    ∀ op, RankedOp rk op →
+      step c₁ (run c₁ (init c₁ builtins).1 ops) op = step c₂ (run c₂ (init c₂ builtins).1 ops) op := by
+  have hi := init_fuel_eq ⟨hb⟩ h₁ h₂ hbase builtins hl
+  have hg := init_good hbase builtins hl
+  have hr := run_fuel_eq ⟨hb⟩ h₁ h₂ (init c₁ builtins).1 hg ops hops
+  refine ⟨hi, by rw [hr, hi], ?_⟩
+  intro op hop
+  have hg' := (run_nodiv h₁ (init c₁ builtins).1 hg ops hops).1
+  rw [step_fuel_eq ⟨hb⟩ h₁ h₂ hg' op hop, hr, hi]
+
+/-- for the built-in tables: any fuel above the number of built-in macros gives the registry the driver (fuel 200)
+computes, after every history whose macros fit the built-in ranks — in particular after every history without
+new macros -/
+theorem builtin_fuel_irrelevant (f : Nat) (hf : Gen.C14.envLit.length < f) (ops : List Op)
+    (hops : ∀ op ∈ ops, RankedOp (rankFn Gen.C14.envLit) op) :
+    run { base := Gen.C14.base, fuel := f } (init { base := Gen.C14.base, fuel := f } Gen.C14.builtins).1 ops
+      = run Gen.C14.cfg (init Gen.C14.cfg Gen.C14.builtins).1 ops :=
+  (fuel_no_part_of_histories (rankFn Gen.C14.envLit) { base := Gen.C14.base, fuel := f } Gen.C14.cfg rfl
+    (bounded_rankFn Gen.C14.envLit f hf)
+    (bounded_rankFn Gen.C14.envLit Gen.C14.cfg.fuel (by decide +kernel))
+    (rankedAllB_spec _ _ builtin_base_ranked) Gen.C14.builtins
+    (fun d hd => rankedAllB_spec _ _ (List.all_eq_true.mp builtin_macros_ranked d hd)) ops hops).2.1
 
 /-! ## the histories that exposed the four repaired defects, re-checked on the model of the repaired code
 
@@ -518,5 +559,10 @@ example : (Op.add [65] xc none).noMacros ∧ (Op.addMany [{ name := [66], props 
   intro d hd
   simp only [List.mem_singleton] at hd
   subst hd; rfl
+
+/-- the premises of `fuel_no_part_of_histories`: two fuels (4 and 9) above the ranks of one rank function that fits
+the base macros of `wcfg` -/
+example : ∃ rk : Str → Nat, Bounded rk wcfg.fuel ∧ Bounded rk 9 ∧ RankedAll rk wcfg.base :=
+  ⟨fun _ => 0, fun _ => by show 0 < 4; omega, fun _ => by show 0 < 9; omega, rankedAllB_spec _ _ (by decide)⟩
 
 end CssVerif.C14
